@@ -154,10 +154,10 @@ func partition(n int, pattern []int) []int {
 // class is what the statement says about one output record.
 type class struct {
 	Seq     string
-	CatVals []string          // category values, NA substituted
-	Count   int               // Σ counts of the members
-	Merged  []map[string]int  // per merge attribute: value -> Σ weights
-	IDs     map[string]bool   // identifiers of the members
+	CatVals []string         // category values, NA substituted
+	Count   int              // Σ counts of the members
+	Merged  []map[string]int // per merge attribute: value -> Σ weights
+	IDs     map[string]bool  // identifiers of the members
 	Members int
 	Agreed  map[string]string // attribute name -> rendering, for the attributes all members carry with one and the same value
 }
